@@ -17,7 +17,8 @@ Bump(f, k) == IF k \in DOMAIN f THEN [f EXCEPT ![k] = @ + 1] ELSE [x \in DOMAIN 
 C07Viol ==
   LET ts == IF E.own = <<>> THEN targets ELSE E.own        \* random cases bring their own targets
       bad == {i \in DOMAIN ts : (E.verdicts[i] = 1) # Triggered(E.rules, ts[i])}
-  IN IF bad = {} THEN {}
+  IN IF bad = {} THEN (IF E.conc > 0 THEN {[p |-> "C07", m |-> "TriggerFunction", cause |-> "decision-for-one-path-differs-between-concurrent-requests",
+                                             sc |-> E.id, n |-> E.conc, at |-> l]} ELSE {})
      ELSE LET i == CHOOSE j \in bad : \A k \in bad : j <= k
           IN {[p |-> "C07", m |-> "TriggerFunction",
                cause |-> IF PathOf(ts[i]) # ts[i] /\ Triggered(E.rules, ts[i]) THEN "protected-path-not-triggered-because-of-query-or-fragment"
